@@ -411,6 +411,16 @@ theorem C10_mem_vertices (zero : Pt α) (d : Nat) (t : TF E α) (g : MGeom α) (
   | ok G' => simp only [hv] at hmv; exact p1 G' (by rw [hmv]; rfl)
   | error e => simp only [hv] at hmv; exact p2 _ (by rw [hmv]; rfl)
 
+/-- **C10_mem_input_kept** ("leaves the input untouched", at the level of what the input MEANS): whatever the
+receiver read as before the call, it reads as exactly that in the memory after the call — on every path
+(success, transformer error at any vertex, panic), for every type, nesting, layout, transformer or nil,
+recursion budget.  (This is the judge's `inputKept` check, as a theorem.) -/
+theorem C10_mem_input_kept (zero : Pt α) (fuel d : Nat) (t : Option (TF E α)) (g : MGeom α) (m : Mem α)
+    (G : Geom α) (hd : decodeGeom m d g = some G) :
+    decodeGeom (transformTop zero fuel t g m).1 d g = some G := by
+  obtain ⟨⟨h1, h2, h3, h4, h5⟩, _, _⟩ := C10_input_unchanged zero fuel t g m
+  exact decodeGeom_grow m _ ⟨h1, h2, h3, h4, h5⟩ d g G hd
+
 /-- **C10_mem_refines_nil**: with a nil transformer the memory model returns the receiver in the unchanged
 memory, for EVERY type and nesting — so whatever it read as before, it reads as after, which is the
 functional model's answer `G` itself. -/
